@@ -299,4 +299,109 @@ theorem differs_on_placeholder :
 example : PlaceholderOpenersHarmless "a = '#{x}' -- #{y}".toList ∧ ¬ NoPlaceholderOpener "a = '#{x}' -- #{y}".toList :=
   ⟨harmless_of_harmlessB _ _ (by decide +kernel), by decide +kernel⟩
 
+/-! ## (d) the complement: a placeholder read in WAIT becomes one marked name -/
+
+theorem mb_handle_wait_hash (text : List Char) (m : Mem) (hs : m.status = .WAIT) :
+    Gen.mybatis.handle text m (.ch '#') = .ok ({ m with now := m.now + 1, status := .CUSTOM_1 }, true) := by
+  simp [Machine.handle, Gen.mybatis, Gen.mbIntercepts, Intercept.fires, Sym.pyStr, hs, exec, Gen.Cls.code, Gen.Cfg7.cfg]
+
+theorem mb_handle_c1_brace (text : List Char) (m : Mem) (hs : m.status = .CUSTOM_1) :
+    Gen.mybatis.handle text m (.ch '{') = .ok ({ m with now := m.now + 1, status := .CUSTOM_2 }, true) := by
+  simp [Machine.handle, Gen.mybatis, Gen.mbIntercepts, Intercept.fires, Sym.pyStr, hs, exec, Gen.Cls.code, Gen.Cfg7.cfg]
+
+theorem mb_handle_c2_other (text : List Char) (m : Mem) (c : Char) (hs : m.status = .CUSTOM_2) (hc : c ≠ '}') :
+    Gen.mybatis.handle text m (.ch c) = .ok ({ m with now := m.now + 1, status := .CUSTOM_2 }, true) := by
+  simp [Machine.handle, Gen.mybatis, Gen.mbIntercepts, Intercept.fires, Sym.pyStr, hs, Ne.symm hc, exec, Gen.Cls.code, Gen.Cfg7.cfg]
+
+theorem mb_handle_c2_close (text : List Char) (m : Mem) (f : List Tok) (fs : List (List Tok)) (hs : m.status = .CUSTOM_2)
+    (hst : m.stack = f :: fs) :
+    Gen.mybatis.handle text m (.ch '}') =
+      .ok ({ start := m.now + 1, now := m.now + 1, status := .WAIT,
+             stack := (f ++ [.single ((text.drop m.start).take (m.now + 1 - m.start)) (Gen.mark_NAME ||| Gen.mark_CUSTOM_1)]) :: fs }, true) := by
+  simp [Machine.handle, Gen.mybatis, Gen.mbIntercepts, Intercept.fires, Sym.pyStr, hs, hst, exec, Gen.Cls.code, Gen.Cfg7.cfg,
+    appendTop, resolveMarks, Cfg.env, Gen.mark_NAME, Gen.mark_CUSTOM_1]
+
+theorem mb_handle_wait_eof (text : List Char) (m : Mem) (hs : m.status = .WAIT) :
+    Gen.mybatis.handle text m .eof = .ok ({ m with status := .END }, true) := by
+  simp [Machine.handle, Gen.mybatis, Gen.mbIntercepts, Intercept.fires, Sym.pyStr, hs, exec, Gen.Cls.code, Gen.Cfg7.cfg,
+    Lex.handle, Cfg.lookup, Gen.Cfg7.atEnd, Gen.Cfg7.o51, Gen.endMarker]
+
+/-- the payload: every character other than `}` is added to the window -/
+theorem mb_feed_payload (text : List Char) : ∀ (p : List Char) (m : Mem), m.status = .CUSTOM_2 → '}' ∉ p →
+    feedAllWith (Gen.mybatis.handle text) p m = .ok { m with now := m.now + p.length }
+  | [], m, _, _ => by simp [feedAllWith]
+  | c :: p, m, hs, hp => by
+    simp only [List.mem_cons, not_or] at hp
+    have h1 := mb_handle_c2_other text m c hs (Ne.symm hp.1)
+    simp only [feedAllWith, feedWith, h1]
+    rw [mb_feed_payload text p _ rfl hp.2]
+    simp [Nat.add_assoc, Nat.add_comm 1, hs]
+
+/-- **placeholder step**: in WAIT with an empty window, at a position where the text continues with `#{p}` (`p` any
+payload without `}` — line breaks, quotes, `#`, `{` allowed), reading `#{p}` appends exactly ONE leaf to the open frame,
+marked NAME|CUSTOM_1, whose text is the placeholder, and leaves the machine in WAIT with an empty window behind it -/
+theorem placeholder_step (text p rest : List Char) (m : Mem) (f : List Tok) (fs : List (List Tok))
+    (hst : m.status = .WAIT) (hwin : m.start = m.now) (hstack : m.stack = f :: fs)
+    (htext : text.drop m.now = '#' :: '{' :: p ++ '}' :: rest) (hp : '}' ∉ p) :
+    feedAllWith (Gen.mybatis.handle text) ('#' :: '{' :: p ++ ['}']) m =
+      .ok { start := m.now + (p.length + 3), now := m.now + (p.length + 3), status := .WAIT,
+            stack := (f ++ [.single ('#' :: '{' :: p ++ ['}']) (Gen.mark_NAME ||| Gen.mark_CUSTOM_1)]) :: fs } := by
+  have h1 := mb_handle_wait_hash text m hst
+  have h2 := mb_handle_c1_brace text { m with now := m.now + 1, status := .CUSTOM_1 } rfl
+  simp only [List.cons_append, feedAllWith, feedWith, h1, h2]
+  rw [feedAllWith_append', mb_feed_payload text p _ rfl hp]
+  simp only []
+  rw [show feedAllWith (Gen.mybatis.handle text) ['}'] = fun m => feedWith (Gen.mybatis.handle text) m '}' from by
+    funext m; simp only [feedAllWith]; cases feedWith (Gen.mybatis.handle text) m '}' <;> rfl]
+  have h3 := mb_handle_c2_close text { start := m.start, now := m.now + 1 + 1 + p.length, status := .CUSTOM_2, stack := m.stack }
+    f fs rfl hstack
+  simp only [feedWith, h3]
+  simp only [Except.ok.injEq, Mem.mk.injEq, List.cons.injEq, and_true, true_and]
+  refine ⟨by omega, by omega, ?_⟩
+  have : m.now + 1 + 1 + p.length + 1 - m.start = p.length + 3 := by omega
+  rw [this, hwin, htext]
+  have : ('#' :: '{' :: p) ++ '}' :: rest = ('#' :: '{' :: (p ++ ['}'])) ++ rest := by simp
+  rw [this, List.take_left' (by simp)]
+
+/-- obligation (pre-pass): the patterns of `preproc_sql` start with CR, TAB and the ideographic space -/
+theorem pre_pass_heads : Gen.cfgS.preChain.map (fun pr => pr.1.head?) = [some '\r', some '\t', some (Char.ofNat 12288)] := by decide
+
+theorem pre_id (t : List Char) (h : ∀ c ∈ t, c ≠ '\r' ∧ c ≠ '\t' ∧ c ≠ Char.ofNat 12288) : Gen.cfgS.pre t = t := by
+  apply preWith_id
+  intro pr hpr
+  have hh : pr.1.head? ∈ Gen.cfgS.preChain.map (fun pr => pr.1.head?) := List.mem_map_of_mem hpr
+  rw [pre_pass_heads] at hh
+  cases hp : pr.1 with
+  | nil => simp [hp] at hh
+  | cons c cs =>
+    refine ⟨c, cs, rfl, fun hc => ?_⟩
+    have := h c hc
+    simp only [hp, List.head?_cons, List.mem_cons, Option.some.injEq, List.mem_nil_iff, or_false] at hh
+    rcases hh with rfl | rfl | rfl <;> simp at this
+
+/-- **placeholder token**: for EVERY payload `p` without `}` (and without the three characters the pre-pass rewrites)
+the text `#{p}` lexes to exactly one leaf, marked NAME|CUSTOM_1, whose text is the whole placeholder -/
+theorem placeholder_token (p : List Char) (hp : ∀ c ∈ p, c ≠ '}' ∧ c ≠ '\r' ∧ c ≠ '\t' ∧ c ≠ Char.ofNat 12288) :
+    Gen.mybatis.lex ('#' :: '{' :: p ++ ['}']) =
+      .ok [.single ('#' :: '{' :: p ++ ['}']) (Gen.mark_NAME ||| Gen.mark_CUSTOM_1)] := by
+  have hpre : Gen.cfgS.pre ('#' :: '{' :: p ++ ['}']) = '#' :: '{' :: p ++ ['}'] := by
+    apply pre_id
+    intro c hc
+    simp only [List.cons_append, List.mem_cons, List.mem_append, List.mem_nil_iff, or_false] at hc
+    rcases hc with rfl | rfl | hc | rfl
+    · decide
+    · decide
+    · exact (hp c hc).2
+    · decide
+  have hstep := placeholder_step ('#' :: '{' :: p ++ ['}']) p [] {} [] [] rfl rfl rfl (by simp)
+    (fun h => (hp _ h).1 rfl)
+  unfold Machine.lex lexWith
+  simp only [show Gen.mybatis.cfg = Gen.cfgS from rfl, hpre, hstep]
+  rw [mb_handle_wait_eof _ _ rfl]
+  simp [finish, Gen.Cfg7.cfg]
+
+/-- the kernel-evaluated witness of section (b) is an instance -/
+example : Gen.mybatis.lex "#{x.y}".toList = .ok [.single "#{x.y}".toList (Gen.mark_NAME ||| Gen.mark_CUSTOM_1)] :=
+  placeholder_token "x.y".toList (by decide)
+
 end C20
